@@ -112,7 +112,8 @@ def case_lines(c):
     M = lower_to_full(n, keys)
     ts = "inf" if thr is None else str(thr)
     H, O = [], []
-    head = "%d %d %s %d %d" % (n, dim, ts, mod, sq)
+    # no threshold is passed either as +infinity (Python binding) or as the largest finite value (command-line tool)
+    head = "%d %d %s %d %d" % (n, dim, "max" if (thr is None and c.get("thrmax")) else ts, mod, sq)
     ks = " ".join(map(str, keys))
     dense = c["kind"] in ("dense", "points")
     if dense:
@@ -140,7 +141,7 @@ def case_lines(c):
             t2 = thr if thr is not None else big - 7
             H.append(("lower+thr", "R lower %d %d %d %d %d %s" % (n, dim, t2, mod, sq, " ".join(str(k if k >= 0 else big) for k in keys))))
     if c.get("second", True) and mod <= 251:
-        H.append(("second", "S %s %s" % (head, ks)))
+        H.append(("second", "S %d %d %s %d %d %s" % (n, dim, ts, mod, sq, ks)))
     if c.get("proved", True):
         othr = ts
         if dense and thr is None:
@@ -261,13 +262,13 @@ def generate(rng, tier):
         if cnt > 6000:
             return
         c["proved"] = cnt <= CAP
-        if c["kind"] != "sparse" and thr is None and c["proved"]:
+        if c["kind"] != "sparse" and thr is None and c["proved"] and (not thorough or rng.random() < 0.4):
             c["cone"] = count_simplices(n, M, None, dmc + 2, CAP + 1) <= CAP
         c["origin"] = origin
         cases.append(c)
 
     # ---- dense integer matrices with ties
-    nd = 420 if thorough else 70
+    nd = 150 if thorough else 70
     for t in range(nd):
         n = rng.choice([1, 2, 3, 4, 4, 5, 5, 6, 6, 6, 7, 7, 7, 8, 8, 9, 9])
         keys = gen_dense(rng, n)
@@ -280,9 +281,10 @@ def generate(rng, tier):
                 mods = MODULI if (thorough and rng.random() < 0.3) else [rng.choice(MODULI)] + ([2] if rng.random() < 0.3 else [])
                 for mod in sorted(set(mods)):
                     d = INTMAX if (dim == max(n - 2, 0) and rng.random() < 0.15) else dim
-                    add(dict(kind="dense", n=n, keys=keys, thr=thr, dim=d, mod=mod, sq=0, shuffle=rng.randrange(1, 10**6)), "dense")
+                    add(dict(kind="dense", n=n, keys=keys, thr=thr, dim=d, mod=mod, sq=0, shuffle=rng.randrange(1, 10**6),
+                             thrmax=(thr is None and rng.random() < 0.4)), "dense")
     # ---- Euclidean clouds with integer coordinates
-    npnt = 120 if thorough else 24
+    npnt = 50 if thorough else 24
     for t in range(npnt):
         n = rng.choice([2, 3, 4, 5, 6, 6, 7, 7, 8])
         m = rng.choice([1, 2, 2, 3])
@@ -478,7 +480,8 @@ def judge(c, out, res=None):
         if tag == "second":
             continue
         if ans.startswith("CRASH") or ans.startswith("DIED"):
-            V.append(("crash:" + tag, "ripser crashed (%s) on form %s" % (ans.split()[0], tag), "no crash", ans[:60]))
+            V.append((("hang:" if "HANG" in ans else "crash:") + tag, "ripser %s on form %s (n=%d dim=%d thr=%s p=%d)"
+                      % ("did not return within 240 s" if "HANG" in ans else "crashed (%s)" % ans[:20], tag, n, dim, c["thr"], mod), "an answer", ans[:60]))
             continue
         if bad:
             if not ans.startswith("EXC"):
